@@ -1,5 +1,6 @@
 """`clients` family: solo machine (C26), localhost (C27), attestations (C28) through the real 02-client keeper."""
 import hashlib
+import re
 from lib.coqgen import N, b, hx, opt, lst, height
 
 NAME = "clients"
@@ -11,6 +12,26 @@ CHECK = "check"
 
 U64 = 1 << 64
 OUT = {"ok": "Ok", "err": "Err", "panic": "Panic"}
+
+
+_HX = re.compile(r'\(hx "([0-9a-f]{16,})"\)')
+
+
+def intern(term):
+    """share repeated long byte-string literals of one record through let-bindings (Coq spends most of the
+    evaluation time parsing string literals)"""
+    cnt = {}
+    for m in _HX.finditer(term):
+        cnt[m.group(1)] = cnt.get(m.group(1), 0) + 1
+    names = {}
+    for h, c in cnt.items():
+        if c > 1:
+            names[h] = "x%d_" % len(names)
+    if not names:
+        return term
+    body = _HX.sub(lambda m: names.get(m.group(1), m.group(0)), term)
+    lets = "".join('let %s := hx "%s" in ' % (v, h) for h, v in names.items())
+    return lets + body
 
 
 def bz(x):
@@ -184,7 +205,7 @@ def enc_solo_history(r):
     sigs = lst(sorted(i["sigs"].items()), lambda kv: "(%s, (%s, %s))" % (sid(kv[0]), hx(kv[1][0]), hx(kv[1][1])))
     ops = lst(i["ops"], lambda o: "(" + sm_op(o) + ")")
     obs = lst(r["out"], lambda o: "(%s, %s)" % (OUT[o["r"]], sm_state(o)))
-    return "SoloHistory %s %s %s %s" % (sm_state(i["init"]), sigs, ops, obs)
+    return intern("SoloHistory %s %s %s %s %s" % (sm_state(i["init"]), sigs, lst(i["malformed"], sid), ops, obs))
 
 
 def _sm_expected(st, o):
@@ -276,8 +297,8 @@ def rec_table(t):
 
 def enc_att_verify_sigs(r):
     i = r["in"]
-    return "AttVerifySigs %s %s %s %s %s %s %s" % (lst(i["attestors"], hx), N(i["min"]), hx(i["data"]), lst(i["sigs"], hx), N(i["tag"]),
-                                                rec_table(i["recover"]), b(r["out"] == "ok"))
+    return intern("AttVerifySigs %s %s %s %s %s %s %s" % (lst(i["attestors"], hx), N(i["min"]), hx(i["data"]), lst(i["sigs"], hx), N(i["tag"]),
+                                                rec_table(i["recover"]), b(r["out"] == "ok")))
 
 
 def tagged(tag, data):
@@ -363,7 +384,7 @@ def enc_att_history(r):
     ops = lst(i["ops"], lambda o: "(" + att_op(o) + ")")
     obs = lst(r["out"], lambda o: "(%s, %s, %s, %s)" % (OUT[o["r"]], N(o["latest"]), b(o["frozen"]),
                                                         lst(o["cons"], lambda c: "(%s, %s)" % (N(c[0]), N(c[1])))))
-    return "AttHistory %s %s %s %s %s %s %s" % (att_state(i["init"]), rec_table(i["recover"]), kec, decp, decs, ops, obs)
+    return intern("AttHistory %s %s %s %s %s %s %s" % (att_state(i["init"]), rec_table(i["recover"]), kec, decp, decs, ops, obs))
 
 
 def att_violations(r):
